@@ -8,6 +8,7 @@
 package scentarget
 
 import (
+	"context"
 	"fmt"
 	"io"
 	"net"
@@ -15,6 +16,7 @@ import (
 	"regexp"
 	"strings"
 	"sync"
+	"sync/atomic"
 	"time"
 )
 
@@ -55,10 +57,14 @@ type Entry struct {
 	At    string `json:"at"`
 	Since int    `json:"since"` // whole milliseconds since the previous arrival (0 for the first)
 	Meth  string `json:"meth"`
+	Fresh bool   `json:"fresh"` // first request on its connection
 }
 
+type connCtrKey struct{}
+type connCtr struct{ n int32 }
+
 type Script struct {
-	Kind string // ok | transport | status | trunc
+	Kind string // ok | transport | status | trunc | eof
 	At   int
 }
 
@@ -80,7 +86,9 @@ func NewTarget() *Target {
 		panic(err)
 	}
 	t := &Target{ln: ln, conns: map[net.Conn]struct{}{}}
-	t.srv = &http.Server{Handler: http.HandlerFunc(t.handle), ConnState: func(c net.Conn, st http.ConnState) {
+	t.srv = &http.Server{Handler: http.HandlerFunc(t.handle), ConnContext: func(ctx context.Context, _ net.Conn) context.Context {
+		return context.WithValue(ctx, connCtrKey{}, &connCtr{})
+	}, ConnState: func(c net.Conn, st http.ConnState) {
 		t.cmu.Lock()
 		defer t.cmu.Unlock()
 		switch st {
@@ -123,11 +131,15 @@ func (t *Target) Log() []Entry {
 
 func (t *Target) handle(w http.ResponseWriter, r *http.Request) {
 	body, _ := io.ReadAll(r.Body)
+	fresh := false
+	if cc, ok := r.Context().Value(connCtrKey{}).(*connCtr); ok {
+		fresh = atomic.AddInt32(&cc.n, 1) == 1
+	}
 	t.mu.Lock()
 	now := time.Now()
 	t.k++
 	k := t.k
-	e := Entry{K: k, Req: r.Header.Get("X-Req"), Meth: r.Method, Val: Val{"none", 0}}
+	e := Entry{K: k, Req: r.Header.Get("X-Req"), Meth: r.Method, Val: Val{"none", 0}, Fresh: fresh}
 	if !t.last.IsZero() {
 		e.Since = int(now.Sub(t.last) / time.Millisecond)
 	}
@@ -165,6 +177,22 @@ func (t *Target) handle(w http.ResponseWriter, r *http.Request) {
 			c.Close()
 		}
 		return
+	}
+	if hit && sc.Kind == "eof" {
+		// the request has been taken completely; the connection is closed cleanly without one response byte
+		hj, ok := w.(http.Hijacker)
+		if !ok {
+			panic("no hijacker")
+		}
+		if c, _, err := hj.Hijack(); err == nil {
+			c.Close()
+		}
+		return
+	}
+	if sc.Kind == "eof" && sc.At == k+1 {
+		// the next arrival is the one that gets no answer: make it come on a fresh connection, where net/http never
+		// re-sends by itself
+		w.Header().Set("Connection", "close")
 	}
 	if hit && sc.Kind == "trunc" {
 		// status line and headers are fine, the body ends before its Content-Length
